@@ -266,7 +266,7 @@ func (e *executableWorkflow) Execute(ctx context.Context, serializedInput any) (
 			verifhook.Emit("Select", "run", l, "branch", "grace-error")
 			// Put it back in the channel
 			verifhook.Emit("ErrPush", "run", l, "kind", "reinsert", "len", len(l.recentErrors))
-			l.recentErrors <- err
+			l.reportError(err)
 			lastErrors := l.handleErrors()
 			l.logger.Errorf("workflow failed with error %s", err.Error())
 			return "", nil, lastErrors
@@ -382,6 +382,18 @@ errGatherLoop:
 	}
 }
 
+// reportError records an error for the caller of Execute. It never blocks: it is called with the
+// run lock held, and once Execute has stopped reading the channel a blocked send would keep the lock
+// forever, so no step could finish and Execute could not return. When the buffer is full the error
+// is only logged; the buffered ones are enough to fail the run.
+func (l *loopState) reportError(err error) {
+	select {
+	case l.recentErrors <- err:
+	default:
+		l.logger.Warningf("Too many workflow errors; not recording: %s", err.Error())
+	}
+}
+
 func (l *loopState) handleErrors() error {
 	lastErr := l.getLastError()
 	if lastErr != nil {
@@ -416,7 +428,7 @@ func (l *loopState) onStageComplete(
 	if err != nil {
 		l.logger.Errorf("Failed to get stage node ID %s (%w)", GetStageNodeID(stepID, *previousStage), err)
 		verifhook.Emit("ErrPush", "run", l, "kind", "getstage", "len", len(l.recentErrors))
-		l.recentErrors <- fmt.Errorf("failed to get stage node ID %s (%w)", GetStageNodeID(stepID, *previousStage), err)
+		l.reportError(fmt.Errorf("failed to get stage node ID %s (%w)", GetStageNodeID(stepID, *previousStage), err))
 		l.cancel()
 		return
 	}
@@ -426,7 +438,7 @@ func (l *loopState) onStageComplete(
 		errMessage := fmt.Errorf("failed to resolve stage node ID %s (%s)", stageNode.ID(), err.Error())
 		verifhook.Emit("ResolveErr", "run", l, "err", err)
 		verifhook.Emit("ErrPush", "run", l, "kind", "resolvestage", "len", len(l.recentErrors))
-		l.recentErrors <- errMessage
+		l.reportError(errMessage)
 		l.cancel()
 		return
 	}
@@ -435,7 +447,7 @@ func (l *loopState) onStageComplete(
 		if err != nil {
 			l.logger.Errorf("Failed to get output node ID %s (%w)", GetStageNodeID(stepID, *previousStage), err)
 			verifhook.Emit("ErrPush", "run", l, "kind", "getoutput", "len", len(l.recentErrors))
-			l.recentErrors <- fmt.Errorf("failed to get output node ID %s (%w)", GetStageNodeID(stepID, *previousStage), err)
+			l.reportError(fmt.Errorf("failed to get output node ID %s (%w)", GetStageNodeID(stepID, *previousStage), err))
 			l.cancel()
 			return
 		}
@@ -447,7 +459,7 @@ func (l *loopState) onStageComplete(
 			l.logger.Errorf("Failed to resolve output node ID %s (%w)", outputNode.ID(), err)
 			verifhook.Emit("ResolveErr", "run", l, "err", err)
 			verifhook.Emit("ErrPush", "run", l, "kind", "resolveoutput", "len", len(l.recentErrors))
-			l.recentErrors <- fmt.Errorf("failed to resolve output node ID %s (%w)", outputNode.ID(), err)
+			l.reportError(fmt.Errorf("failed to resolve output node ID %s (%w)", outputNode.ID(), err))
 			l.cancel()
 			return
 		}
@@ -558,9 +570,9 @@ func (l *loopState) notifySteps() { //nolint:gocognit
 				delete(l.waitingOutputs, nodeID)
 				if wasWaiting && len(l.waitingOutputs) == 0 && !l.outputDone {
 					verifhook.Emit("ErrPush", "run", l, "kind", "nooutputs", "len", len(l.recentErrors))
-					l.recentErrors <- &ErrNoMorePossibleOutputs{
+					l.reportError(&ErrNoMorePossibleOutputs{
 						l.dag,
-					}
+					})
 					l.cancel()
 				}
 			} else {
@@ -597,7 +609,7 @@ func (l *loopState) notifySteps() { //nolint:gocognit
 			// conversions) end the run with an error.
 			l.logger.Errorf("Cannot resolve expressions for %s (%v)", nodeID, err)
 			verifhook.Emit("ErrPush", "run", l, "kind", "evalfail", "len", len(l.recentErrors))
-			l.recentErrors <- fmt.Errorf("cannot resolve expressions for %s (%w)", nodeID, err)
+			l.reportError(fmt.Errorf("cannot resolve expressions for %s (%w)", nodeID, err))
 			l.cancel()
 			return
 		}
@@ -615,7 +627,7 @@ func (l *loopState) notifySteps() { //nolint:gocognit
 			if _, err := nodeItem.DataSchema.Unserialize(untypedInputData); err != nil {
 				l.logger.Errorf("Bug: schema evaluation resulted in invalid data for %s (%v)", nodeID, err)
 				verifhook.Emit("ErrPush", "run", l, "kind", "bug:schema", "len", len(l.recentErrors))
-				l.recentErrors <- fmt.Errorf("bug: schema evaluation resulted in invalid data for %s (%w)", nodeID, err)
+				l.reportError(fmt.Errorf("bug: schema evaluation resulted in invalid data for %s (%w)", nodeID, err))
 				l.cancel()
 				return
 			}
@@ -640,7 +652,7 @@ func (l *loopState) notifySteps() { //nolint:gocognit
 			); err != nil {
 				l.logger.Errorf("Bug: failed to provide input to step %s (%w)", nodeItem.StepID, err)
 				verifhook.Emit("ErrPush", "run", l, "kind", "bug:provide", "len", len(l.recentErrors), "err", err)
-				l.recentErrors <- fmt.Errorf("bug: failed to provide input to step %s (%w)", nodeItem.StepID, err)
+				l.reportError(fmt.Errorf("bug: failed to provide input to step %s (%w)", nodeItem.StepID, err))
 				l.cancel()
 				return
 			}
@@ -720,9 +732,9 @@ func (l *loopState) checkForDeadlocks(retries int, wg *sync.WaitGroup) {
 	if counters.starting == 0 && counters.running == 0 && !hasReadyNodes && !l.outputDone {
 		if retries <= 0 {
 			verifhook.Emit("ErrPush", "run", l, "kind", "nosteps", "len", len(l.recentErrors))
-			l.recentErrors <- &ErrNoMorePossibleSteps{
+			l.reportError(&ErrNoMorePossibleSteps{
 				l.dag,
-			}
+			})
 			l.logger.Debugf("DAG:\n%s", l.dag.Mermaid())
 			l.logger.Errorf("TERMINATING WORKFLOW; Errors below this error may be due to the early termination")
 			l.cancel()
